@@ -4,7 +4,13 @@ set -e
 cd "$(dirname "$0")"
 export CARGO_NET_OFFLINE=true
 python3 gen_constants.py
+# translator tie: build r2l and regenerate lean/Grenad/Generated/Src from /repo/src
+(cd r2l && cargo build --offline && ./target/debug/r2l targets.txt /repo/src ../lean/Grenad/Generated/Src > /dev/null)
 PROPS=$(ls lean/Grenad/Props/*.lean | sed 's#lean/##; s#/#.#g; s#\.lean$##' | tr '\n' ' ')
+SRCTIE=$(ls lean/Grenad/SrcTie/*.lean | sed 's#lean/##; s#/#.#g; s#\.lean$##' | tr '\n' ' ')
 (cd lean && lake build Grenad gmodel $PROPS Grenad.All)
+# the translator-tie modules are built one by one and may legitimately fail to build when /repo's code
+# is outside the translator's subset: ./check decides what that means (DESIGN.md §3.5)
+(cd lean && lake build $SRCTIE) || echo "setup: a translator-tie module does not build on this tree (reported by ./check)"
 [ -f harness/Cargo.lock ] || cp /repo/Cargo.lock harness/Cargo.lock
 (cd harness && cargo build --offline && cargo build --offline --no-default-features --target-dir target-min)
